@@ -30,6 +30,7 @@ DESIGN_PASS = [
     ("Acct", "MC_code_holds.cfg", 16, ("thorough",)),
     ("AcctDesign", "MC_contract_len6.cfg", 8, ("thorough",)),
     ("AcctDesign", "MC_contract2.cfg", 8, ("thorough",)),
+    ("Acct", "MC_code_nodup_2s.cfg", 8, ("thorough",)),
 ]
 # clause -> cfg: TLC is EXPECTED to find a counterexample run of the design (or to pass once the code is repaired)
 DESIGN_CEX = [
@@ -60,16 +61,18 @@ def _events(bundle, v):
     return bundle.events(v["system"], v["path"])
 
 
-def _tags(evs):
+def _tags(evs, detail=None):
     """descriptive shape of a witness (for grouping and for matching known findings; not a verdict)"""
     tags = set()
+    if detail and detail.get("unaccounted") and set(detail["unaccounted"]) <= set(detail.get("stopRefused") or []):
+        tags.add("lost-stop-was-refused")  # every unaccounted session had its Stop refused (hence queued) before
     crashed = False
     for e in evs:
         op = e.get("op")
         if op == "crash":
             tags.add("crash@" + e.get("point", "?"))
             crashed = True
-        elif op == "ret" and e.get("call") == "graceful":
+        elif op == "call" and e.get("call") == "graceful":
             tags.add("graceful")
         elif op == "drop":
             tags.add("%s-refused" % e.get("typ"))
@@ -86,7 +89,7 @@ def _sig(bundle, v, clause):
     evs = _events(bundle, v)
     cfg = bundle.cfg(v["system"])
     spec = json.loads(cfg["spec"])
-    tags = _tags(evs)
+    tags = _tags(evs, v.get("detail"))
     return dict(impl=IMPL, system=v["system"], clauses=[clause], last_op=(evs[-1].get("op") if evs else "init"),
                 ops=sorted(tags), spec=spec, nevents=len(evs), origin=cfg.get("origin", ""),
                 cost=(len(spec.get("crashes") or []), len(spec.get("events") or []), sum((spec.get("fail") or {}).values())))
@@ -279,18 +282,19 @@ def _check(prop, fam, tier, seed, replay, work, known, t0):
     binp = build_harness("./acct", work)
     design_stats, cex_cases, cex_info, live = [], [], [], None
     env = {"VERIF_PROP": prop}
-    if replay:
-        env["VERIF_REPLAY"] = os.path.abspath(replay)
-    else:
-        design_stats, cex_cases, cex_info, live = _design_cex(work)
-        if cex_cases:
-            xf = os.path.join(work, "cex_cases.json")
-            json.dump(dict(property=prop, cases=cex_cases), open(xf, "w"))
-            env["VERIF_EXTRA"] = xf
     outdir = os.path.join(work, "explore")
     pool = concurrent.futures.ThreadPoolExecutor(max_workers=1)
-    fut = None if replay else pool.submit(_design_pass, tier, work)   # TLC on the design while the (sleep-bound) explorer runs
+    fut = None
     try:
+        if replay:
+            env["VERIF_REPLAY"] = os.path.abspath(replay)
+        else:
+            fut = pool.submit(_design_pass, tier, work)   # TLC on the design runs while the (sleep-bound) explorer does
+            design_stats, cex_cases, cex_info, live = _design_cex(work)
+            if cex_cases:
+                xf = os.path.join(work, "cex_cases.json")
+                json.dump(dict(property=prop, cases=cex_cases), open(xf, "w"))
+                env["VERIF_EXTRA"] = xf
         stats = _explore(binp, outdir, tier, seed, env)
     finally:
         if fut is not None:
